@@ -49,6 +49,9 @@ type Params struct {
 	MaxRead    int
 	Seed       int64
 	NoWait     bool
+	RB         int  // reader's buffer size (0 = 4096)
+	SlowReader bool // the reader pauses 1 ms (virtual) between reads: the close overtakes it
+	Raw        bool // drive protocol.Mux directly: the client writes and closes without ever reading
 }
 
 func (p Params) String() string {
@@ -56,7 +59,7 @@ func (p Params) String() string {
 	if p.UDP {
 		t = fmt.Sprintf("udp mtu=%d lat=%v faults=%v", p.MTU, p.Latency, p.Faults)
 	}
-	return fmt.Sprintf("%s sizes=%v closer-is-server=%v tp=%s maxread=%d nowait=%v seed=%d", t, p.Sizes, p.ServerSide, p.TP, p.MaxRead, p.NoWait, p.Seed)
+	return fmt.Sprintf("%s sizes=%v closer-is-server=%v tp=%s maxread=%d nowait=%v rb=%d slow-reader=%v raw-mux=%v seed=%d", t, p.Sizes, p.ServerSide, p.TP, p.MaxRead, p.NoWait, p.RB, p.SlowReader, p.Raw, p.Seed)
 }
 
 var verbose = false
@@ -64,7 +67,7 @@ var verbose = false
 func exec(p Params, pats []xfer.NamedTP, ctl *explore.Ctl) explore.Result {
 	v := &xfer.Verdict{Prop: "C03"}
 	cfg := world.Config{UDP: p.UDP, MTU: p.MTU, Latency: p.Latency, ClientTP: xfer.FindTP(pats, p.TP), ServerTP: xfer.FindTP(pats, p.TP),
-		Seed: p.Seed, Horizon: 200 * time.Second, NoWait: p.NoWait, Mux: appctlpb.MultiplexingLevel_MULTIPLEXING_OFF,
+		Seed: p.Seed, Horizon: 200 * time.Second, NoWait: p.NoWait, RawMux: p.Raw, Mux: appctlpb.MultiplexingLevel_MULTIPLEXING_OFF,
 		C2S: simnet.StreamOpts{MaxRead: p.MaxRead}, S2C: simnet.StreamOpts{MaxRead: p.MaxRead}}
 	if cfg.MTU == 0 {
 		cfg.MTU = 1400
@@ -105,8 +108,15 @@ func exec(p Params, pats []xfer.NamedTP, ctl *explore.Ctl) explore.Result {
 		}
 		read := func(rd net.Conn) {
 			got := 0
-			buf := make([]byte, 4096)
+			rb := p.RB
+			if rb == 0 {
+				rb = 4096
+			}
+			buf := make([]byte, rb)
 			for {
+				if p.SlowReader {
+					vsched.Sleep(time.Millisecond)
+				}
 				m, err := rd.Read(buf)
 				if m > 0 {
 					if at, ok := world.CheckPrefix(0, 'x', got, buf[:m]); !ok || got+m > total {
@@ -135,7 +145,13 @@ func exec(p Params, pats []xfer.NamedTP, ctl *explore.Ctl) explore.Result {
 			}
 		}
 		g.Go("srv", "server", func() {
-			c, _, err := w.Accept()
+			var c net.Conn
+			var err error
+			if p.Raw {
+				c, err = w.RawAccept()
+			} else {
+				c, _, err = w.Accept()
+			}
 			if err != nil {
 				result = "accept-failed"
 				return
@@ -152,7 +168,13 @@ func exec(p Params, pats []xfer.NamedTP, ctl *explore.Ctl) explore.Result {
 			}
 		})
 		g.Go("cli", "client", func() {
-			c, err := w.Dial(1000)
+			var c net.Conn
+			var err error
+			if p.Raw {
+				c, err = w.RawDial()
+			} else {
+				c, err = w.Dial(1000)
+			}
 			if err != nil {
 				result = "dial-failed:" + errClass(err)
 				return
@@ -259,6 +281,34 @@ func units(tier string) []runner.Unit {
 						i++
 						run(u, p, explore.Bound{})
 					}
+				}
+			}
+		}
+		// slow readers with small buffers: the close is processed while data is still unread
+		for _, udp := range []bool{false, true} {
+			for _, ss := range []bool{false, true} {
+				for _, sz := range [][]int{{3000}, {1, 1025}, {40000}} {
+					for _, rb := range []int{1000, 100, 7} {
+						if rb == 7 && sz[0] == 40000 {
+							continue
+						}
+						p := Params{UDP: udp, MTU: 1400, Latency: 5 * time.Millisecond, Sizes: sz, ServerSide: ss, TP: []string{"nil", "pad255", "le40-R1"}[i%3], Seed: int64(i), RB: rb, SlowReader: true}
+						i++
+						run(u, p, explore.Bound{})
+					}
+				}
+			}
+		}
+		// protocol.Mux driven directly: a client that writes and closes without ever reading
+		for _, udp := range []bool{false, true} {
+			for _, sz := range [][]int{{1}, {100}, {1024}, {1025}, {5100}, {100, 5000}, {40000}} {
+				for _, lat := range []time.Duration{5, 50} {
+					if !udp && lat != 5 {
+						continue
+					}
+					p := Params{UDP: udp, MTU: 1400, Latency: lat * time.Millisecond, Sizes: sz, TP: []string{"nil", "pad255", "le40-R1"}[i%3], Seed: int64(i), Raw: true}
+					i++
+					run(u, p, explore.Bound{})
 				}
 			}
 		}
